@@ -116,6 +116,9 @@ func randOp(r *Rng, pos int, pInvalid int) Op {
 
 func randHistory(r *Rng, maxLen int, pInvalid int) []Op {
 	n := 1 + r.Intn(maxLen)
+	if maxLen >= 20 && r.Chance(1, 80) {
+		n = 150 + r.Intn(300) // long enough to cross several buffer growth steps
+	}
 	h := make([]Op, n)
 	for i := range h {
 		h[i] = randOp(r, i, pInvalid)
